@@ -363,6 +363,9 @@ func ToXPath(p *sdcpb.Path, noKeys bool) string {
 
 func StripPathElemPrefixPath(p *sdcpb.Path) {
 	for _, pe := range p.GetElem() {
+		if pe == nil {
+			continue
+		}
 		if i := strings.Index(pe.Name, ":"); i > 0 {
 			pe.Name = pe.Name[i+1:]
 		}
